@@ -26,7 +26,7 @@ func NewRefPrices(j *Journal) *RefPrices {
 	rp := &RefPrices{}
 	for _, d := range j.Dirs {
 		if d.Kind == "price" {
-			rp.Decls = append(rp.Decls, PriceDecl{Day: d.Date, Com: d.Com, Target: d.Target, Price: qToDec(d.Price)})
+			rp.Decls = append(rp.Decls, PriceDecl{Day: d.Date, Com: d.Com, Target: d.Target, Price: d.PriceDec()})
 		}
 	}
 	sort.SliceStable(rp.Decls, func(a, b int) bool { return rp.Decls[a].Day < rp.Decls[b].Day })
